@@ -343,7 +343,8 @@ Section Cfg.
   | CAppend (k : str) (x : pyval)                 (* cfg.k.append(x) on a list of configurations *)
   | CSetIdx (k : str) (i : nat) (x : pyval)       (* cfg.k[i] = x *)
   | CValidate (collect : bool)                    (* cfg.validate(collect_errors) *)
-  | CLoads (parsed : res pyval).                  (* cfg.loads(document, format): what the format's parser made of the document
+  | CLoads (parsed : res pyval)
+  | CInsert (k : str) (i : Z) (x : pyval).        (* cfg.k.insert(i, x) on a list of configurations *)                  (* cfg.loads(document, format): what the format's parser made of the document
                                                      (the parser is not code of this repository); include fields: Tree.v *)
 
   Fixpoint set_nth_cfg (i : nat) (x : cfg) (l : list cfg) : list cfg :=
@@ -372,12 +373,30 @@ Section Cfg.
     | _ => (w, None, OErr EValue)                  (* ValueError("invalid configuration object"), raised directly *)
     end.
 
+  (* list.insert(index, x): negative indices count from the end, everything is clamped into [0, len] *)
+  Definition insert_pos (i : Z) (len : nat) : nat :=
+    let n := Z.of_nat len in
+    Z.to_nat (if (i <? 0)%Z then Z.max 0 (i + n) else Z.min i n).
+
   Definition apply_cop (w : world) (pre : str) (c : cfg) (dynamic : bool) (vs : list N) (fs : list (str * node)) (o : cop)
     : world * cfg * oc :=
     match o with
     | CSet k x => set_value x w pre c fs dynamic k false
     | CLoad t v => load_tree t v w pre c dynamic vs fs
     | CReset k => reset_key w c fs k
+    | CInsert k i x =>
+        match fget k fs, dget k (c_data c) with
+        | Some (NCfgList _ vs' fs'), Some (VList l) =>
+            (* super().insert(index, self._validate(item)): the item is built and loaded first (reported position: len(self)),
+               then list.insert clamps the index *)
+            match make_item w (path_join pre k) (N.of_nat (length l)) vs' fs' x with
+            | (w1, Some it, OOk) =>
+                let n := insert_pos i (length l) in
+                (w1, match c with Cfg i0 d df dy => Cfg i0 (dset k (VList (firstn n l ++ it :: skipn n l)) d) df dy end, OOk)
+            | (w1, _, o) => (w1, c, o)
+            end
+        | _, _ => (w, c, ONav)
+        end
     | CLoads parsed =>
         (* tree = formatter.loads(self, content); tree = self._process_includes(...); self.load_tree(tree):
            a document that does not parse never reaches load_tree *)
